@@ -25,7 +25,8 @@ fn p2(v: u16) -> Item {
 /// Programs that spend their time in each of the polled loops.
 pub fn programs(rng: &mut StdRng, thorough: bool) -> Vec<(String, Vec<u8>)> {
     let mut v: Vec<(String, Vec<Item>)> = Vec::new();
-    let size = |rng: &mut StdRng| -> u16 { *[0x40u16, 0x60, 0xa0, 0x100, 0x180].get(rng.gen_range(0..5)).unwrap() };
+    // at least 8 iterations of 32 bytes, so that intervals up to 7 are exercised inside one loop
+    let size = |rng: &mut StdRng| -> u16 { *[0x100u16, 0x140, 0x180].get(rng.gen_range(0..3)).unwrap() };
     let tail = |n: u8| -> Vec<Item> {
         let mut t = Vec::new();
         for i in 0..n {
@@ -139,7 +140,7 @@ pub fn trace(o: &Opts) -> R<()> {
             }
         }
     }
-    let intervals: Vec<usize> = if thorough { vec![1, 2, 3, 7, 10, 100, 1000] } else { vec![1, 3, 10, 100] };
+    let intervals: Vec<usize> = if thorough { vec![1, 2, 3, 4, 7, 10, 64, 100, 1000] } else { vec![1, 2, 3, 10, 100] };
     let lim = Limits {
         l:    2,
         f:    2,
